@@ -16,8 +16,10 @@ package middlewares
 
 import (
 	"net/url"
+	"strings"
 
 	"github.com/gofiber/fiber/v2"
+	"github.com/versity/versitygw/backend"
 	"github.com/versity/versitygw/metrics"
 	"github.com/versity/versitygw/s3api/controllers"
 	"github.com/versity/versitygw/s3err"
@@ -28,6 +30,15 @@ func DecodeURL(logger s3log.AuditLogger, mm *metrics.Manager) fiber.Handler {
 	return func(ctx *fiber.Ctx) error {
 		unescp, err := url.QueryUnescape(string(ctx.Request().URI().PathOriginal()))
 		if err != nil {
+			return controllers.SendResponse(ctx, s3err.GetAPIError(s3err.ErrInvalidURI), &controllers.MetaOpts{Logger: logger, MetricsMng: mm})
+		}
+		// bucket and object names become filesystem paths: refuse the
+		// ones that would be resolved to another location, and ids that
+		// are more than a single path component
+		if !backend.IsOpaquePath(strings.TrimPrefix(unescp, "/")) ||
+			!backend.IsOpaqueId(ctx.Query("versionId")) ||
+			!backend.IsOpaqueId(ctx.Query("uploadId")) ||
+			!backend.IsOpaqueId(ctx.Query("bucket")) {
 			return controllers.SendResponse(ctx, s3err.GetAPIError(s3err.ErrInvalidURI), &controllers.MetaOpts{Logger: logger, MetricsMng: mm})
 		}
 		ctx.Path(unescp)
